@@ -23,7 +23,16 @@ type rootInfo struct {
 
 // rootsOf computes the set of root values v may point into.  deref counts whether a
 // pointer indirection occurred on the way (used to look through local copies).
-func rootsOf(v ssa.Value) rootSet {
+func rootsOf(v ssa.Value) rootSet { return rootsOfMode(v, false) }
+
+// rootsOfAddr: roots of the MEMORY an address points into (the target of a store).  Differs from
+// rootsOf in one case: for `append(a, b...)` the written backing array is a's (or a fresh one),
+// never the memory the appended elements point to — as long as no pointer has been loaded out of
+// the slice on the way (chain[l], chain[r] = chain[r], chain[l] on a local slice of *Template writes
+// the local slice, not the templates).
+func rootsOfAddr(v ssa.Value) rootSet { return rootsOfMode(v, true) }
+
+func rootsOfMode(v ssa.Value, addrOnly bool) rootSet {
 	rs := rootSet{}
 	seen := map[ssa.Value]bool{}
 	var walk func(v ssa.Value, derefs int)
@@ -127,7 +136,7 @@ func rootsOf(v ssa.Value) rootSet {
 			// builtin append returns (possibly) its first argument's array
 			if b, ok := x.Call.Value.(*ssa.Builtin); ok && b.Name() == "append" {
 				walk(x.Call.Args[0], derefs)
-				if len(x.Call.Args) > 1 {
+				if len(x.Call.Args) > 1 && !(addrOnly && derefs == 0) {
 					walk(x.Call.Args[1], derefs)
 				}
 				return
@@ -249,13 +258,22 @@ func (rs *retSummaries) addRoots(f *ssa.Function, v ssa.Value, s *retSummary, de
 }
 
 // deepRoots resolves call-result roots through the callee's return summary.
-func deepRoots(p *Program, v ssa.Value) rootSet {
+func deepRoots(p *Program, v ssa.Value) rootSet { return deepRootsMode(p, v, false) }
+
+// deepRootsAddr: as deepRoots, for the target address of a store (see rootsOfAddr).
+func deepRootsAddr(p *Program, v ssa.Value) rootSet { return deepRootsMode(p, v, true) }
+
+func deepRootsMode(p *Program, v ssa.Value, addrOnly bool) rootSet {
 	rs := getRetSummaries(p)
 	out := rootSet{}
 	seen := map[ssa.Value]bool{}
 	var add func(v ssa.Value, depth int)
 	add = func(v ssa.Value, depth int) {
-		for r := range rootsOf(v) {
+		src := rootsOf(v)
+		if addrOnly && depth == 0 {
+			src = rootsOfAddr(v)
+		}
+		for r := range src {
 			if seen[r] {
 				continue
 			}
@@ -436,7 +454,7 @@ func (m *mutSummary) compute(fn *ssa.Function, stack map[*ssa.Function]bool) {
 	ps := map[int][]writeSite{}
 	gs := map[*ssa.Global][]writeSite{}
 	record := func(target ssa.Value, ws writeSite) {
-		for r := range deepRoots(m.p, target) {
+		for r := range deepRootsAddr(m.p, target) {
 			switch rv := r.(type) {
 			case *ssa.Parameter:
 				if i := paramIndex(fn, rv); i >= 0 {
